@@ -33,7 +33,7 @@ func runC07(o Opts) (*Result, error) {
 		n = c07DefaultL
 	}
 	res := &Result{Property: "C07", Seed: o.Seed,
-		Rule: "three kinds of histories, all generated from splitmix64(seed, index): (1) " + fmt.Sprint(n) + " swap keeper calls (Deposit/Withdraw/SwapExactForTokens/SwapForExactTokens by 3 accounts on 2 allowed pools sharing a denom) on a fresh app.TestApp; (2) batches of single operations on x/swap/types.BasePool with reserves, shares and amounts up to 2^255; (3) the exhaustive small domain (all reserves, shares and amounts up to n, five fees) compared through digests. A keeper history is non-trivial when it contains a successful operation that exercises a counted case split (new pool, A- or B-reduced deposit, partial/exiting/pool-deleting withdrawal, either direction of either swap kind); a BasePool batch when at least one of its operations hits a counted split; distinct by hash of the operation list"}
+		Rule: "three kinds of histories, all generated from splitmix64(seed, index): (1) " + fmt.Sprint(n) + " swap keeper calls (Deposit/Withdraw/SwapExactForTokens/SwapForExactTokens by 3 accounts on 2 allowed pools sharing a denom) on a fresh app.TestApp, every third history delivered at the message level instead (ValidateBasic, then the real msg server at generated block times, deadlines one second before / exactly on / one second after the block time, far ahead, or not positive); (2) batches of single operations on x/swap/types.BasePool with reserves, shares and amounts up to 2^255; (3) the exhaustive small domain (all reserves, shares and amounts up to n, five fees) compared through digests. A keeper history is non-trivial when it contains a successful operation that exercises a counted case split (new pool, A- or B-reduced deposit, partial/exiting/pool-deleting withdrawal, either direction of either swap kind); a BasePool batch when at least one of its operations hits a counted split; distinct by hash of the operation list"}
 	cnt := NewCounters()
 
 	if o.Replay != "" {
@@ -47,6 +47,7 @@ func runC07(o Opts) (*Result, error) {
 		_ = json.Unmarshal(bz, &kind)
 		var coq string
 		var fail *Failure
+		mismatchFn := "mismatches"
 		switch kind.Kind {
 		case "base":
 			var b bBatch
@@ -74,14 +75,17 @@ func runC07(o Opts) (*Result, error) {
 			if len(h.Genesis.Bals) == 0 {
 				return nil, fmt.Errorf("replay file has no keeper history")
 			}
-			h2, c, f, _ := kRun(h.Seed, h.Idx, 0, &h.Genesis, h.Ops, cnt)
+			h2, c, f, _ := kRunMode(h.Mode, h.Seed, h.Idx, 0, &h.Genesis, h.Ops, cnt)
 			coq, fail = c, f
 			if fail != nil {
 				fail.Replay = MustJSON(h2)
 			}
 			res.Evaluations = len(h.Ops)
+			if h.Mode == "tx" {
+				mismatchFn = "mismatches_m"
+			}
 		}
-		name, err := WriteShard(o.OutDir, 0, c07Header, []string{coq}, "mismatches")
+		name, err := WriteShard(o.OutDir, 0, c07Header, []string{coq}, mismatchFn)
 		if err != nil {
 			return nil, err
 		}
@@ -99,16 +103,22 @@ func runC07(o Opts) (*Result, error) {
 	// ---- (1) keeper histories
 	nK := o.N
 	kItems := make([]c07Item, nK)
+	kMode := func(i int) string { // every third keeper history is delivered at the message level
+		if i%3 == 2 {
+			return "tx"
+		}
+		return ""
+	}
 	ParallelFor(nK, o.Workers, func(i int) {
-		h, coq, fail, splits := kRun(o.Seed, i, n, nil, nil, cnt)
+		h, coq, fail, splits := kRunMode(kMode(i), o.Seed, i, n, nil, nil, cnt)
 		if fail != nil {
 			sig := fail.Signature
 			fails := func(cand []kOp) bool {
-				_, _, f, _ := kRun(o.Seed, i, 0, &h.Genesis, cand, nil)
+				_, _, f, _ := kRunMode(kMode(i), o.Seed, i, 0, &h.Genesis, cand, nil)
 				return f != nil && f.Signature == sig
 			}
 			small := Shrink(h.Ops[:fail.Step+1], fails)
-			h2, _, f2, _ := kRun(o.Seed, i, 0, &h.Genesis, small, nil)
+			h2, _, f2, _ := kRunMode(kMode(i), o.Seed, i, 0, &h.Genesis, small, nil)
 			if f2 != nil {
 				f2.History = i
 				f2.Replay = MustJSON(h2)
@@ -162,11 +172,12 @@ func runC07(o Opts) (*Result, error) {
 	seen := map[string]bool{}
 	var cases []string
 	shard := 0
+	mismatchFn := "mismatches"
 	flush := func() error {
 		if len(cases) == 0 {
 			return nil
 		}
-		name, err := WriteShard(o.OutDir, shard, c07Header, cases, "mismatches")
+		name, err := WriteShard(o.OutDir, shard, c07Header, cases, mismatchFn)
 		if err != nil {
 			return err
 		}
@@ -196,9 +207,22 @@ func runC07(o Opts) (*Result, error) {
 		}
 		return flush()
 	}
-	if err := addItems(kItems, 40); err != nil {
+	var kKeeper, kTx []c07Item
+	for i, it := range kItems {
+		if kMode(i) == "tx" {
+			kTx = append(kTx, it)
+		} else {
+			kKeeper = append(kKeeper, it)
+		}
+	}
+	if err := addItems(kKeeper, 40); err != nil {
 		return nil, err
 	}
+	mismatchFn = "mismatches_m" // message-level histories are [mhistory] terms
+	if err := addItems(kTx, 40); err != nil {
+		return nil, err
+	}
+	mismatchFn = "mismatches"
 	if err := addItems(bItems, 2); err != nil {
 		return nil, err
 	}
@@ -221,6 +245,11 @@ func runC07(o Opts) (*Result, error) {
 			res.QualityGate = append(res.QualityGate, "keeper:"+k)
 		}
 	}
+	for _, k := range kTxSplits {
+		if res.Counters["split:keeper:"+k] == 0 {
+			res.QualityGate = append(res.QualityGate, "keeper:"+k)
+		}
+	}
 	for _, k := range bAllSplits {
 		if res.Counters["split:base:"+k] == 0 {
 			res.QualityGate = append(res.QualityGate, "base:"+k)
@@ -235,7 +264,19 @@ func runC07(o Opts) (*Result, error) {
 			}
 		}
 	}
-	res.Extra = map[string]any{"keeper_ops": allOps, "keeper_ops_ok": okOps, "exhaustive_n": xn, "base_batches": nB, "base_cases_per_batch": perBatch}
+	okTx, allTx := 0, 0
+	for k, v := range res.Counters {
+		if len(k) > 5 && k[:5] == "optx:" {
+			allTx += v
+			if k[len(k)-3:] == ":ok" {
+				okTx += v
+			}
+		}
+	}
+	res.Extra = map[string]any{"keeper_ops": allOps, "keeper_ops_ok": okOps, "tx_msgs": allTx, "tx_msgs_ok": okTx, "exhaustive_n": xn, "base_batches": nB, "base_cases_per_batch": perBatch}
+	if allTx > 0 && okTx*100 < allTx*35 {
+		res.QualityGate = append(res.QualityGate, fmt.Sprintf("message success ratio %d/%d below 35%%", okTx, allTx))
+	}
 	if allOps > 0 && okOps*100 < allOps*60 {
 		res.QualityGate = append(res.QualityGate, fmt.Sprintf("keeper success ratio %d/%d below 60%%", okOps, allOps))
 	}
